@@ -74,7 +74,7 @@ func child(deadline time.Time) *sched.RaceSummary {
 func TestCheck(t *testing.T) {
 	sched.RaceChild(child)
 	r := vk.Start("C20", "model_checking", 100*time.Second, 5*time.Minute)
-	sched.RunRaceParent(r, vk.Pick(r, 40, 180),
+	sched.RunRaceParent(r, vk.Pick(r, 25, 150),
 		"data-race pass: the block-queue harness bodies (Run + producers + consensus + Discard) free-running on the unmodified bqueue package under the Go race detector; a race report or a safety-oracle failure is a violation",
 		[]string{"the race pass is a sample of free-running schedules (the exhaustive part is the scheduler part); it exists because unsynchronised accesses are invisible to a cooperative scheduler"})
 }
